@@ -10,6 +10,7 @@ from prop import SchedProp  # noqa: E402
 
 class C01(SchedProp):
     id = 'C01'
+    gen_opts = {'p_multirec': 0.25}
     props_modules = ['CylcModel.Props.C01']
     theorems = [
         'CylcModel.C01.submit_sound',
